@@ -368,7 +368,7 @@ impl Property for C18 {
         "fault_enumeration"
     }
     fn rule(&self) -> String {
-        "A case = secure server with a client limit of 1-3 at construction, raised or lowered at run time in some cases; 1-4 honest clients on distinct addresses spawned at any time, token timeouts 1-15 s or disabled, 1-3 server addresses of which a prefix is silent (the first of them, in some cases, a second server that answers the request with a challenge and is never heard of again); ticks of 10 ms - 1 s around the 250 ms send rate; per-datagram loss / delay by 1-3 ticks / duplication in both directions during and after the handshake, whole-silence periods per client, the server application streaming a payload to every connected client each tick in some cases, forged and replayed datagrams presented to both sides during silences. A model keeps, per side, the time of the last authentic and fresh packet accepted (genuine datagram delivered for the first time to the endpoint holding that session). Oracles at every update: a peer whose last accepted packet is older than its timeout is reported disconnected by that update (server: ClientDisconnected; client: ConnectionTimedOut), one whose accepted packets are not further apart is not; half-open sessions are gone after their token's expiry second; a denial only happens when the server was full or the id/address was taken during that attempt. After faults stop: every client still connecting whose attempt never met a full server or a taken id/address, with an unexpired token and timeouts enabled when addresses are silent, is connected on both sides within sum(timeouts of the remaining silent addresses) + 8*max(250 ms, tick) + 1 s. Non-trivial: a handshake datagram of at least two of the four kinds was lost, or a silent first address, a raised limit, or a forged packet during a silence occurred, and the heal obligation was evaluated. Distinct = hash of the decoded operation trace.".into()
+        "A case = secure server with a client limit of 1-3 at construction, raised or lowered at run time in some cases; 1-4 honest clients on distinct addresses spawned at any time, token timeouts 1-15 s or disabled, 1-3 server addresses of which a prefix is silent (the first of them, in some cases, a second server that answers the request with a challenge and is never heard of again); ticks of 10 ms - 1 s around the 250 ms send rate; per-datagram loss / delay by 1-3 ticks / duplication in both directions during and after the handshake, whole-silence periods per client, the server application streaming a payload to every connected client each tick in some cases, forged and replayed datagrams presented to both sides during silences. A model keeps, per side, the time of the last authentic and fresh packet accepted (genuine datagram delivered for the first time to the endpoint holding that session). Oracles at every update: a peer whose last accepted packet is older than its timeout is reported disconnected by that update (server: ClientDisconnected; client: ConnectionTimedOut), one whose accepted packets are not further apart is not; half-open sessions are gone after their token's expiry second; a denial only happens when the server was full or the id/address was taken during that attempt. Enumerated besides the histories: every address-list length 1-32 with every position of the single answering address (or none), four timeout / tick combinations, loss-free - the client must walk the list, connect at the answering address or end disconnected when the list is exhausted, within (timeout/tick + 3) updates per address. After faults stop: every client still connecting whose attempt never met a full server or a taken id/address, with an unexpired token and timeouts enabled when addresses are silent, is connected on both sides within sum(timeouts of the remaining silent addresses) + 8*max(250 ms, tick) + 1 s. Non-trivial: a handshake datagram of at least two of the four kinds was lost, or a silent first address, a raised limit, or a forged packet during a silence occurred, and the heal obligation was evaluated. Distinct = hash of the decoded operation trace.".into()
     }
     fn assumptions(&self) -> Vec<String> {
         vec![
@@ -381,7 +381,64 @@ impl Property for C18 {
         PbtCfg { cases: tier.pick(200_000, 4_000_000), max_len: tier.pick(500, 1600), shrink_ms: 120_000 }
     }
     fn required_labels(&self) -> Vec<&'static str> {
-        vec!["lost_request", "lost_challenge", "lost_response", "lost_keepalive", "silent_first_address", "limit_raised", "limit_lowered", "forged_in_silence", "server_timeout", "client_timeout", "heal_obligation", "streaming", "timeouts_disabled", "challenge_then_silent_address"]
+        vec!["lost_request", "lost_challenge", "lost_response", "lost_keepalive", "silent_first_address", "limit_raised", "limit_lowered", "forged_in_silence", "server_timeout", "client_timeout", "heal_obligation", "streaming", "timeouts_disabled", "challenge_then_silent_address", "address_list_walked", "address_list_exhausted"]
+    }
+    fn enums(&self, _tier: Tier) -> Vec<(&'static str, u64)> {
+        // every address-list length 1..=32 x every position of the one answering address (or none) x 4 timeout / tick combinations
+        vec![("address_lists", 32 * 33 * 4)]
+    }
+    fn run_enum(&self, name: &str, index: u64, ctx: &mut Ctx) -> Outcome {
+        let v = (index % 4) as usize;
+        let p = ((index / 4) % 33) as usize;
+        let n = 1 + (index / 4 / 33) as usize;
+        if n > 32 || p > n {
+            return Ok(());
+        }
+        // ticks stay shorter than the timeout (a peer updated less often than its timeout cannot hold any session)
+        let (timeout, dt_ms) = [(1i32, 300u64), (2, 1100), (2, 700), (3, 2600)][v];
+        ctx.op(&(name, n, p, timeout, dt_ms));
+        let mut nw = NetWorld::new(7 + index);
+        nw.servers.push(mk_server(0, 1, PROTO, 2, nw.now, true));
+        // position p answers (p == n: nobody does)
+        let addrs: Vec<SocketAddr> = (0..n).map(|k| if k == p { server_addr(0) } else { silent_addr(k) }).collect();
+        let t = nw.mint(&TokenSpec { client_id: 800, user: 1, expire_seconds: 600, timeout, addrs, key: key(1), protocol: PROTO });
+        nw.add_client(t, client_addr(0), 1);
+        let dt = Duration::from_millis(dt_ms);
+        let per_addr = (timeout as u64 * 1000).div_ceil(dt_ms) + 3;
+        let bound = n as u64 * per_addr + 12;
+        for step in 0..bound {
+            nw.now += dt;
+            for o in nw.server_tick(0, dt) {
+                if let SrvOut::Send { did, .. } | SrvOut::Disconnected { did: Some(did), .. } = o {
+                    nw.deliver_to_clients(did);
+                }
+            }
+            nw.honest_step(0, dt, false, false);
+            let client = &nw.clients[0].client;
+            if client.is_connected() && nw.servers[0].server.client_addr(800) == Some(client_addr(0)) {
+                if p == n {
+                    return Err(Fail::new("connected_without_server", "client reports connected although no listed address answers"));
+                }
+                ctx.nontrivial = p > 0;
+                ctx.label("address_list_walked");
+                return Ok(());
+            }
+            if client.is_disconnected() {
+                if p < n {
+                    return Err(Fail::new(
+                        "gave_up_before_live_address",
+                        format!("{n} addresses, #{p} answers, timeout {timeout} s, tick {dt_ms} ms: client gave up ({:?}) after {step} updates without reaching it", client.disconnect_reason()),
+                    ));
+                }
+                ctx.nontrivial = true;
+                ctx.label("address_list_exhausted");
+                return Ok(());
+            }
+        }
+        Err(Fail::new(
+            "address_list_not_walked",
+            format!("{n} addresses, #{p} answers (== {n}: none), timeout {timeout} s, tick {dt_ms} ms: after {bound} updates the client is neither connected nor disconnected (talking to {})", nw.clients[0].client.server_addr()),
+        ))
     }
     fn run_choices(&self, ctx: &mut Ctx) -> Outcome {
         let mut nw = NetWorld::new(ctx.src.u16() as u64);
